@@ -253,7 +253,9 @@ impl GitVcs {
 
     /// Check if working directory is dirty
     fn is_dirty(&self) -> Result<bool> {
-        let output = self.run_git_command(&["status", "--porcelain"])?;
+        // --untracked-files=normal: `status.showUntrackedFiles = no` would hide untracked files
+        let output =
+            self.run_git_command(&["status", "--porcelain", "--untracked-files=normal"])?;
         Ok(!output.is_empty())
     }
 
